@@ -5,6 +5,7 @@ package zzvrf
 
 import (
 	"fmt"
+	authtypes "github.com/cosmos/cosmos-sdk/x/auth/types"
 	"sort"
 	"strings"
 )
@@ -20,6 +21,18 @@ func CheckSupply() {
 		return
 	}
 	Cover("c15-checked")
+	// share tokens pass through their module's account: minted and sent on to the depositor (or custody), collected
+	// and burnt on withdrawal. Whatever a scenario mints must have been issued against the deposit, so nothing of a
+	// share denom it minted or burnt may be left sitting in the minting module's own account.
+	seen := map[string]bool{}
+	for _, r := range w.MintLog {
+		isShare := strings.HasPrefix(r.Denom, "amm/pool/") || r.Denom == "stablestake/share"
+		if !isShare || seen[r.Module+"|"+r.Denom] {
+			continue
+		}
+		seen[r.Module+"|"+r.Denom] = true
+		Assert(w.BalOf(authtypes.NewModuleAddress(r.Module), r.Denom).IsZero(), fmt.Sprintf("C15: every %s token minted by module %s was issued against a deposit (none is left unbacked in the module's own account)", r.Denom, r.Module))
+	}
 	for _, r := range w.MintLog {
 		ok := false
 		switch {
